@@ -414,10 +414,12 @@ impl RawOpaquePool {
         // SAFETY: Caller guarantees the handle is valid for this pool.
         let slab = unsafe { self.slabs.get_unchecked_mut(handle.slab_index()) };
 
+        // We take the object out of the slab but defer dropping it until all of our own
+        // bookkeeping is complete. The destructor is user code and may panic - if it does,
+        // the pool must already be in its post-remove state.
+        //
         // SAFETY: Caller guarantees the handle is valid for this pool.
-        unsafe {
-            slab.remove(handle.slab_handle());
-        }
+        let removed = unsafe { slab.remove_deferred_drop(handle.slab_handle()) };
 
         // Update our tracked length since we just removed an object.
         // This cannot wrap around because we just removed an object,
@@ -435,6 +437,10 @@ impl RawOpaquePool {
                     .update_slab_status(handle.slab_index(), true);
             }
         }
+
+        // Runs the destructor of the removed object. If it panics, the panic propagates to
+        // the caller with the pool in a consistent state.
+        drop(removed);
     }
 
     /// Removes an object from the pool and returns the object.
